@@ -35,7 +35,26 @@ def _membership_guard(node, func, names):
                         d = pyflow.dotted(c)
                         if d and (d in names or d.split(".")[0] in names or d.split(".")[-1] in names):
                             return True
+                        # `if K not in C: C[K] = v` on an element/alias of the container: same key, same receiver
+                        tgt = _written_slot(node)
+                        if tgt and ast.unparse(c) == tgt[0] and ast.unparse(n.left) == tgt[1]:
+                            return True
     return False
+
+
+def _written_slot(node):
+    """(container text, key text) of `C[K] = v` / `C.setdefault(K, v)`"""
+    if isinstance(node, ast.Assign):
+        for t in node.targets:
+            if isinstance(t, ast.Subscript):
+                return ast.unparse(t.value), ast.unparse(t.slice)
+    if isinstance(node, ast.Subscript):
+        return ast.unparse(node.value), ast.unparse(node.slice)
+    if isinstance(node, ast.Call) and isinstance(node.func, ast.Attribute) and node.args:
+        return ast.unparse(node.func.value), ast.unparse(node.args[0])
+    if isinstance(node, ast.Expr):
+        return _written_slot(node.value)
+    return None
 
 
 def _fresh_before(func, node, name):
@@ -191,7 +210,10 @@ FORBIDDEN_MODULES = {"time", "datetime", "random", "uuid", "socket", "getpass", 
                      "tempfile"}
 FORBIDDEN_CALLS = {"os.getpid", "os.getcwd", "os.urandom", "os.getenv", "os.path.abspath",
                    "os.path.realpath", "os.listdir", "os.scandir", "os.walk", "glob.glob", "os.getlogin",
-                   "os.uname", "os.times", "os.stat", "os.path.getmtime"}
+                   "os.uname", "os.times", "os.stat", "os.path.getmtime", "os.path.getctime", "os.path.getatime",
+                   "os.path.relpath", "os.path.expanduser", "os.path.expandvars", "os.path.samefile",
+                   "os.getuid", "os.getgid", "os.getppid", "os.cpu_count", "os.path.getsize", "os.chdir",
+                   "sys.getrefcount", "sys.getsizeof", "object.__hash__", "os.get_terminal_size"}
 FORBIDDEN_NAMES = {"id", "hash"}
 
 
@@ -207,6 +229,15 @@ def rule_r3(repo, run):
                            "opened with mode r or w only")
     n = 0
     for m in repo.modules():
+        alias = {}
+        for node in ast.walk(m.tree):
+            if isinstance(node, ast.Import):
+                for a in node.names:
+                    if a.asname:
+                        alias[a.asname] = a.name
+            elif isinstance(node, ast.ImportFrom) and node.level == 0 and node.module:
+                for a in node.names:
+                    alias[a.asname or a.name] = node.module + "." + a.name
         for node in ast.walk(m.tree):
             if _under_main_guard(node):
                 continue
@@ -221,6 +252,9 @@ def rule_r3(repo, run):
                           "imports nondeterminism source %s" % node.module, m.loc(node))
             elif isinstance(node, ast.Call):
                 d = pyflow.call_name(node) or ""
+                head = d.split(".")[0]
+                if head in alias:
+                    d = alias[head] + d[len(head):]
                 fn = enclosing_function(node)
                 where = "%s.%s" % (m.name, getattr(fn, "_qualname", "<module>"))
                 if d in FORBIDDEN_CALLS or d.split(".")[0] in FORBIDDEN_MODULES:
@@ -256,19 +290,63 @@ def rule_r3(repo, run):
 
 
 # ---------------------------------------------------------------------------
-def _set_typed_names(module):
-    """Module-level and function-local names bound to set values."""
-    out = set()
+def _scopes(module):
+    """(scope node, statements-bearing nodes of that scope only)"""
+    yield module.tree
     for node in ast.walk(module.tree):
+        if isinstance(node, (ast.FunctionDef, ast.AsyncFunctionDef, ast.Lambda)):
+            yield node
+
+
+def _own_nodes(scope):
+    """nodes of a scope without those of nested function scopes"""
+    todo = list(ast.iter_child_nodes(scope))
+    while todo:
+        n = todo.pop()
+        yield n
+        if not isinstance(n, (ast.FunctionDef, ast.AsyncFunctionDef, ast.Lambda)):
+            todo.extend(ast.iter_child_nodes(n))
+
+
+def _set_typed_names(scope, inherited=()):
+    """Names of one scope ALL of whose bindings are set-valued expressions
+    (set()/{...}/set comprehension/set algebra over set-typed operands) - a
+    fixed point, so `both = set(a) & set(b)` and `c = both - other` count."""
+    binds = {}
+    for node in _own_nodes(scope):
         if isinstance(node, ast.Assign):
+            for t in node.targets:
+                if isinstance(t, ast.Name):
+                    binds.setdefault(t.id, []).append(node.value)
+                elif isinstance(t, (ast.Tuple, ast.List)):
+                    for e in t.elts:
+                        if isinstance(e, ast.Name):
+                            binds.setdefault(e.id, []).append(None)
+        elif isinstance(node, (ast.AugAssign, ast.AnnAssign)) and isinstance(node.target, ast.Name):
             v = node.value
-            is_set = isinstance(v, (ast.Set, ast.SetComp)) or (
-                isinstance(v, ast.Call) and (pyflow.call_name(v) or "") in ("set", "frozenset"))
-            if is_set:
-                for t in node.targets:
-                    if isinstance(t, ast.Name):
-                        out.add(t.id)
-    return out
+            if isinstance(node, ast.AugAssign) and isinstance(node.op, (ast.BitOr, ast.BitAnd, ast.Sub, ast.BitXor)):
+                continue        # s |= other keeps the type of s
+            binds.setdefault(node.target.id, []).append(v)
+        elif isinstance(node, (ast.For, ast.comprehension)):
+            for e in ast.walk(node.target):
+                if isinstance(e, ast.Name):
+                    binds.setdefault(e.id, []).append(None)
+        elif isinstance(node, (ast.With, ast.ExceptHandler, ast.Import, ast.ImportFrom)):
+            pass
+    if isinstance(scope, (ast.FunctionDef, ast.AsyncFunctionDef)):
+        for a in scope.args.args + scope.args.kwonlyargs:
+            binds.setdefault(a.arg, []).append(None)
+    names = set(inherited) - set(binds)
+    changed = True
+    while changed:
+        changed = False
+        for name, vals in binds.items():
+            if name in names:
+                continue
+            if vals and all(v is not None and _is_set_expr(v, names) for v in vals):
+                names.add(name)
+                changed = True
+    return names
 
 
 def _is_set_expr(e, setnames):
@@ -279,6 +357,9 @@ def _is_set_expr(e, setnames):
     if isinstance(e, ast.Name) and e.id in setnames:
         return True
     if isinstance(e, ast.BinOp) and isinstance(e.op, (ast.BitOr, ast.BitAnd, ast.Sub, ast.BitXor)):
+        if any(isinstance(x, ast.Call) and isinstance(x.func, ast.Attribute) and x.func.attr in ("keys", "items")
+               for x in (e.left, e.right)):
+            return True         # set algebra on dict views yields a set
         return _is_set_expr(e.left, setnames) or _is_set_expr(e.right, setnames)
     if isinstance(e, ast.Call) and isinstance(e.func, ast.Attribute) and \
             e.func.attr in ("union", "intersection", "difference", "symmetric_difference") and \
@@ -292,31 +373,32 @@ def rule_r4(repo, run):
                            "without sorted()")
     n = 0
     for m in repo.modules():
-        setnames = _set_typed_names(m)
-        for node in ast.walk(m.tree):
-            sites = []
-            if isinstance(node, (ast.For, ast.comprehension)):
-                sites.append(("iteration", node.iter))
-            elif isinstance(node, ast.Call):
-                d = pyflow.call_name(node) or ""
-                last = d.split(".")[-1]
-                if last in ("join", "list", "tuple", "enumerate", "extend", "writelines") and node.args:
-                    sites.append((last + "()", node.args[0]))
-                if last in ("pop",) and isinstance(node.func, ast.Attribute) and \
-                        _is_set_expr(node.func.value, setnames) and not node.args:
-                    sites.append(("set.pop()", node.func.value))
-            for what, e in sites:
-                if _is_set_expr(e, setnames):
+        modnames = _set_typed_names(m.tree)
+        allnames = set()
+        for scope in _scopes(m):
+            setnames = modnames if scope is m.tree else _set_typed_names(scope, modnames)
+            allnames |= setnames
+            for node in _own_nodes(scope):
+                sites = []
+                if isinstance(node, (ast.For, ast.comprehension)):
+                    sites.append(("iteration", node.iter))
+                elif isinstance(node, ast.Call):
+                    d = pyflow.call_name(node) or ""
+                    last = d.split(".")[-1]
+                    if last in ("join", "list", "tuple", "enumerate", "extend", "writelines") and node.args:
+                        sites.append((last + "()", node.args[0]))
+                    if last in ("pop",) and isinstance(node.func, ast.Attribute) and \
+                            _is_set_expr(node.func.value, setnames) and not node.args:
+                        sites.append(("set.pop()", node.func.value))
+                for what, e in sites:
                     n += 1
-                    fn = enclosing_function(node)
-                    run.fail(R, "%s.%s:%s over set" % (m.name, getattr(fn, "_qualname", "<module>"), what),
-                             "%s over a set-typed expression %r: order depends on PYTHONHASHSEED"
-                             % (what, m.seg(e)), m.loc(node))
-                else:
-                    n += 1
-        for nm in sorted(setnames):
+                    if _is_set_expr(e, setnames):
+                        fn = enclosing_function(node)
+                        run.fail(R, "%s.%s:%s over set" % (m.name, getattr(fn, "_qualname", "<module>"), what),
+                                 "%s over a set-typed expression %r: order depends on PYTHONHASHSEED"
+                                 % (what, m.seg(e)), m.loc(node))
+        for nm in sorted(allnames):
             run.ok(R, "%s:set-typed name %s only used for membership" % (m.name, nm))
-    run.rules[R]["obligations"] += 0
     run.instances(R, n)
     run.floor(R, "iteration/join sites inspected", n, 400)
     run.ok(R, "iteration sites", sample=dict(sites_inspected=n))
